@@ -21,7 +21,11 @@ def build_aux(features=(), target="target"):
     lock = open(os.path.join(vlib.WORK, "cargo.lock"), "w")
     fcntl.flock(lock, fcntl.LOCK_EX)
     try:
+        if vlib.ALT:
+            target = target + "-alt"
         cmd = ["cargo", "build", "--offline", "--target-dir", target]
+        if vlib.ALT:
+            cmd += ["--config", 'paths=["%s"]' % vlib.REPO]
         if features:
             cmd += ["--features", ",".join(features)]
         t0 = time.time()
@@ -78,7 +82,7 @@ def run_aux(c, binary, sub, arg, name, env=None):
 @check("C01")
 def c01(tier, seed):
     c = Check("C01", tier, seed)
-    info = srcparse.parse_layout_src()
+    info = srcparse.parse_layout_src(vlib.REPO)
     c.cov["source_facts"] = info
     if not (info["even_repr_c"] and info["odd_repr_c"] and info["transparent"]):
         c.assumptions.append("DESIGN WARNING: a repr attribute is missing in src/lib.rs; the model assumes declaration order, observed layouts still decide")
@@ -96,7 +100,7 @@ def c01(tier, seed):
 @check("C19")
 def c19(tier, seed):
     c = Check("C19", tier, seed)
-    srcparse.parse_layout_src()
+    srcparse.parse_layout_src(vlib.REPO)
     c.mc("MC_Layout", "MC_Layout_q" if tier == "quick" else "MC_Layout_t", workers=8, timeout=1500)
     binary = build_aux()
     run_aux(c, binary, "c19", tier, "constdefault-zeroize", env={"VERIF_SEED": str(seed)})
